@@ -621,7 +621,7 @@ bool Config::lookupValue(const char *path, const char *&value) const
 
 bool Config::lookupValue(const char *path, std::string &value) const
 {
-  CONFIG_LOOKUP_NO_EXCEPTIONS(path, const char *, value);
+  CONFIG_LOOKUP_NO_EXCEPTIONS(path, std::string, value);
 }
 
 // ---------------------------------------------------------------------------
@@ -1065,7 +1065,7 @@ bool Setting::lookupValue(const char *name, const char *&value) const
 
 bool Setting::lookupValue(const char *name, std::string &value) const
 {
-  SETTING_LOOKUP_NO_EXCEPTIONS(name, const char *, value);
+  SETTING_LOOKUP_NO_EXCEPTIONS(name, std::string, value);
 }
 
 // ---------------------------------------------------------------------------
